@@ -485,6 +485,18 @@ Error RACFGBuilder::on_instruction(InstNode* inst, InstControlFlow& cf, RAInstBu
       InstSameRegHint same_reg_hint = InstSameRegHint::kNone;
       if (single_reg_ops == operands.size()) {
         same_reg_hint = inst_info.same_reg_hint();
+
+        // The hint only describes the accessed part of the register - a write-only hint requires the operation to
+        // overwrite the whole virtual register, a read-only hint requires it to not zero extend it.
+        if (same_reg_hint != InstSameRegHint::kNone && operands[0].is_reg()) {
+          uint32_t op_size = operands[0].as<Reg>().size();
+          uint32_t work_reg_size = ib[0]->work_reg()->signature().size();
+          bool covers = same_reg_hint == InstSameRegHint::kWO ? (op_size >= 4u || op_size >= work_reg_size)
+                                                              : (op_size != 4u || op_size >= work_reg_size);
+          if (!covers) {
+            same_reg_hint = InstSameRegHint::kNone;
+          }
+        }
       }
       else if (operands.size() == 2 && operands[1].is_imm()) {
         // Handle some tricks used by X86 asm.
